@@ -658,6 +658,10 @@ class Interp:
                 if isinstance(base, (VTuple, VList)):
                     return type(base)(list(reversed(base.items)))
             raise OutOfSubset('slice step')
+        if isinstance(base, VConst) and base.kind == 'hexstr':
+            if isinstance(lo, VInt) and is_int_const(lo.t) and lo.t.as_long() == 4 and (hi is None or hi is VNone):
+                return VConst('hexstr_tail', base.py)
+            raise OutOfSubset('slice of hex() string other than [4:]')
         if isinstance(base, (VSeq, VStr)):
             n = z3.Length(base.t)
             l = self.norm_index(self.as_int(lo), n) if lo is not None and lo is not VNone else z3.IntVal(0)
@@ -754,7 +758,7 @@ class Interp:
         if isinstance(node.op, ast.USub):
             if isinstance(v, VFloat):
                 return VFloat(-v.t)
-            return VInt(-self.as_int(v))
+            return VInt(z3.simplify(-self.as_int(v)))
         if isinstance(node.op, ast.UAdd):
             return VInt(self.as_int(v))
         if isinstance(node.op, ast.Invert):
@@ -932,6 +936,8 @@ class Interp:
                         # floor semantics for negative divisor: -( (-x) // (-y) ) ... keep exact
                         q = -((-x) / (-y)) if False else None
                         raise OutOfSubset('negative divisor')
+                if isinstance(op, ast.Mod) and not is_int_const(y):
+                    return VInt(self.mod_pos(x, y))
                 return VInt(x / y) if isinstance(op, ast.FloorDiv) else VInt(x % y)
             if isinstance(op, ast.LShift):
                 self.check_shift(y, fr)
@@ -1019,8 +1025,19 @@ class Interp:
                 return ((u / p) % 2) * p
             k = self.match_pow2_minus1(w)
             if k is not None:
-                return u % self.pow2(k)
+                return self.mod_pos(u, self.pow2(k))
         return self.as_int(self.call_spec('band', VInt(x), VInt(y)))
+
+    def mod_pos(self, x, p):
+        """x % p for a symbolic divisor: the remainder bound (floor semantics, p > 0) is supplied as a ground fact
+        because the solvers do not derive it for non-constant divisors"""
+        x = z3.simplify(x)
+        # (a % p) % p == a % p
+        if z3.is_app(x) and x.decl().kind() == z3.Z3_OP_MOD and x.num_args() == 2 and x.arg(1).eq(p):
+            return x
+        r = x % p
+        self.path.assume(z3.Implies(p > 0, z3.And(r >= 0, r < p)))
+        return r
 
     def match_pow2(self, t):
         """t == 1 * pow2(k) as built by `1 << k` / `2 ** k`"""
@@ -1067,6 +1084,8 @@ class Interp:
                 a = t.arg(i)
                 if z3.is_app(a) and a.decl().name() == 'pow2':
                     return a
+            for i in range(t.num_args()):
+                a = t.arg(i)
                 if is_int_const(a) and a.as_long() > 0 and a.as_long() & (a.as_long() - 1) == 0:
                     return a
         return None
@@ -1834,6 +1853,10 @@ class Interp:
     # ----------------------------------------------------------------- contracts at call sites
     def call_by_contract(self, func, contract, args, kwargs, fr, self_cls, recursive=False):
         locals_ = self.bind_args(func, args, kwargs, fr)
+        if func.node.args.vararg is not None:
+            # abstract base method declared as (self, *args, **kwargs): bind by the contract's own signature
+            for name_, v_ in zip(contract.param_order, args):
+                locals_[name_] = v_
         cf = Frame(func, dict(locals_), self.reg.spec_module_for(contract), func.cls)
         cf.spec = True
         cf.target_module = func.module
@@ -1885,6 +1908,15 @@ class Interp:
             cf.locals['result'] = res
             for e in contract.ensures:
                 self.path.assume(self.truth(self.ev(e, cf)))
+            # objects the callee may write satisfy their class invariant again when it returns (proved at its exits)
+            for a in contract.assigns:
+                tgt = self.ev(a, cf)
+                if isinstance(tgt, VObj) and isinstance(tgt.cls, ClassInfo):
+                    ifr = Frame(None, {'self': tgt}, tgt.cls.module)
+                    ifr.spec = True
+                    ifr.old = ifr
+                    for inv in self.reg.class_invariants(tgt.cls):
+                        self.path.assume(self.truth(self.ev(inv, ifr)))
             if not self.path.feasible(z3.BoolVal(True)):
                 raise PathEnd()
             return res
